@@ -138,6 +138,32 @@ structure Step where
   alloc : List Nat
   deriving Repr, DecidableEq
 
+/-- The buffer the data is read into: a fresh `make([]byte, caplen)` (copying call), or the
+    reused `r.packetBuf`, reallocated to `max(snaplen, caplen)` when its capacity is too small.
+    Result: new `cap(r.packetBuf)` and the allocation requests. -/
+def bufFor (zc : Bool) (r : Reader) (caplen : Nat) : Nat × List Nat :=
+  if zc then
+    if r.bufCap < caplen then
+      let n := if r.snaplen < caplen then caplen else r.snaplen
+      (n, [n])
+    else (r.bufCap, [])
+  else (r.bufCap, [caplen])
+
+/-- Second half of Read/ZeroCopyReadPacketData, after the header checks: get the buffer,
+    `io.ReadFull` the data.  `r.s` is the stream after the record header. -/
+def readData (zc : Bool) (r : Reader) (sec frac caplen len : Nat) : Step :=
+  let ba := bufFor zc r caplen
+  let r2 := { r with bufCap := ba.1 }
+  if zc ∧ ba.1 < caplen then { r := r2, out := .panic .slice, alloc := ba.2 }  -- r.packetBuf[:caplen]
+  else
+    match readFull r.s caplen with
+    | .stop k s'' => { r := { r2 with s := s'' }, out := .stop k, alloc := ba.2 }
+    | .got d s'' =>
+      let t := normTime sec frac
+      { r := { r2 with s := s'' },
+        out := .pkt { sec := t.1, nsec := t.2, caplen := caplen, len := len, data := d },
+        alloc := ba.2 }
+
 /-- ReadPacketData (`zc = false`) / ZeroCopyReadPacketData (`zc = true`). -/
 def read (zc : Bool) (r : Reader) : Step :=
   -- readPacketHeader
@@ -152,54 +178,56 @@ def read (zc : Bool) (r : Reader) : Step :=
     let r1 := { r with s := s' }
     if caplen > r.snaplen then { r := r1, out := .err, alloc := [] }
     else if caplen > len then { r := r1, out := .err, alloc := [] }
-    else
-      -- the buffer: a fresh one, or the reused r.packetBuf
-      let (cap', alloc) :=
-        if zc then
-          if r.bufCap < caplen then
-            let n := if r.snaplen < caplen then caplen else r.snaplen
-            (n, [n])
-          else (r.bufCap, [])
-        else (r.bufCap, [caplen])
-      let r2 := { r1 with bufCap := cap' }
-      if zc ∧ cap' < caplen then { r := r2, out := .panic .slice, alloc := alloc }  -- r.packetBuf[:caplen]
-      else
-        match readFull s' caplen with
-        | .stop k s'' => { r := { r2 with s := s'' }, out := .stop k, alloc := alloc }
-        | .got d s'' =>
-          let t := normTime sec frac
-          { r := { r2 with s := s'' },
-            out := .pkt { sec := t.1, nsec := t.2, caplen := caplen, len := len, data := d },
-            alloc := alloc }
+    else readData zc r1 sec frac caplen len
   | .got _ s' => { r := { r with s := s' }, out := .panic .index, alloc := [] }
 
 def setSnaplen (r : Reader) (n : Nat) : Reader := { r with snaplen := n }
 
-/-- Remaining input never grows. -/
-theorem read_rest_le (zc : Bool) (r : Reader) : (read zc r).r.s.data.length ≤ r.s.data.length := by
-  unfold read readFull Stream.drained
-  repeat' split
-  all_goals simp_all
-  all_goals omega
+theorem readData_pkt_le (zc : Bool) (r : Reader) (sec frac caplen len : Nat) (p : Pkt)
+    (h : (readData zc r sec frac caplen len).out = .pkt p) :
+    (readData zc r sec frac caplen len).r.s.data.length ≤ r.s.data.length := by
+  revert h
+  unfold readData
+  dsimp only
+  split
+  · intro h; cases h
+  · split
+    · intro h; cases h
+    · rename_i d s'' hd
+      have h2 := (readFull_got hd).1
+      intro _
+      dsimp only
+      omega
 
 /-- A call that returns a packet consumed at least the 16-byte record header. -/
 theorem read_pkt_lt (zc : Bool) (r : Reader) (p : Pkt) (h : (read zc r).out = .pkt p) :
     (read zc r).r.s.data.length < r.s.data.length := by
   revert h
-  unfold read readFull Stream.drained
-  repeat' split
-  all_goals simp_all
-  all_goals omega
+  unfold read
+  split
+  · intro h; cases h
+  · rename_i s' h16
+    have h1 := (readFull_got h16).1
+    dsimp only
+    split
+    · intro h; cases h
+    · split
+      · intro h; cases h
+      · intro h
+        have := readData_pkt_le _ _ _ _ _ _ _ h
+        dsimp only at this
+        omega
+  · intro h; cases h
 
 /-- Read until the first call that does not return a packet: the packets and that outcome. -/
 def readAll (zc : Bool) (r : Reader) : List Pkt × Out :=
-  match h : (read zc r).out with
+  match _h : (read zc r).out with
   | .pkt p =>
     let rest := readAll zc (read zc r).r
     (p :: rest.1, rest.2)
   | o => ([], o)
 termination_by r.s.data.length
-decreasing_by exact read_pkt_lt zc r p h
+decreasing_by exact read_pkt_lt zc r p (by assumption)
 
 /-- Open and read everything: header info (link type, snaplen, ns-resolution?) if any,
     the packets, the final outcome. -/
